@@ -7,7 +7,6 @@ True = inside the documented domain, False = documented as outside, None = the d
 as a verdict: such cases are skipped).  Cases = all 16 exported model classes x a few valid base instances x variants
 (converse clause) and x every single corruption of a catalogue (pairs of corruptions in the thorough tier)."""
 import copy
-import itertools
 import logging
 
 import networkx as nx
@@ -365,22 +364,23 @@ def variants(cls, base, names, tier):
 
 def _variants_tail(cls, base, names, tier, b, r, E):
     out = []
-    if True:
-        s = base_spec(cls, base, names, extra={"elements_to_ignore": [E(b["ign"])]})
-        out.append(("one ignored edge", s))
-        if cls not in COVER_CLASSES:
-            for lab, val in (("negative weight on an ignored edge", -1), ("missing weight on an ignored edge", None)):
-                s2 = copy.deepcopy(s)
-                for e in s2["edges"]:
-                    if (e[0], e[1]) == E(b["ign"]):
-                        if val is None:
-                            e[2].pop("flow")
-                        else:
-                            e[2]["flow"] = val
-                out.append((lab, s2))
-            s3 = base_spec(cls, base, names, origin="node")
-            s3["nodes"][1][1].pop("flow")
-            out.append(("node-weighted, one node without weight", s3))
+    s = base_spec(cls, base, names, extra={"elements_to_ignore": [E(b["ign"])]})
+    out.append(("one ignored edge", s))
+    if cls not in COVER_CLASSES:
+        # a missing weight on an ignored edge is a documented use (NodeExpandedDiGraph example); a negative one is left
+        # undecided by the predicate (the docstrings reject negative values without exempting ignored edges) and is dropped
+        for lab, val in (("negative weight on an ignored edge", -1), ("missing weight on an ignored edge", None)):
+            s2 = copy.deepcopy(s)
+            for e in s2["edges"]:
+                if (e[0], e[1]) == E(b["ign"]):
+                    if val is None:
+                        e[2].pop("flow")
+                    else:
+                        e[2]["flow"] = val
+            out.append((lab, s2))
+        s3 = base_spec(cls, base, names, origin="node")
+        s3["nodes"][1][1].pop("flow")
+        out.append(("node-weighted, one node without weight", s3))
     if cls in HAS_ERROR_SCALING:
         out.append(("error scaling 0.5 / 0 / 1", base_spec(cls, base, names, extra={"error_scaling": {E(b["edges"][0]): 0.5, E(b["ign"]): 0, E(b["edges"][-1]): 1}})))
     # additional starts / ends
@@ -689,21 +689,34 @@ def cases(tier):
             c = emit(dict(cls=cls, base=base, variant=lab, corrupt=kind, expect=False, spec=enc(s2)))
             if c:
                 yield c
-        if tier == "thorough" and cls in GRAPH_CLASSES and lab in ("plain edge-weighted, int", "one constraint, coverage 1"):
-            # pairs of corruptions: apply a second corruption of a different family on top of the first
+        if tier == "thorough" and cls in GRAPH_CLASSES and lab in ("plain edge-weighted, int", "one constraint, coverage 1", "node-weighted", "cover_type=node"):
+            # pairs of corruptions: a second corruption of a different family on top of the first
             for (k1, s1) in cs:
                 if valid(s1)[0] is not False:
                     continue
                 try:
                     second = corruptions(s1)
                 except Exception:
-                    continue
-                for k2, s2 in second[::3]:
-                    if k2.split(" (")[0] == k1.split(" (")[0] or valid(s2)[0] is not False:
-                        continue
+                    continue            # the first corruption made the spec unusable for the generator itself
+                for k2, s2 in second:
+                    if family(k2) <= family(k1) or valid(s2)[0] is not False:
+                        continue        # unordered pairs of different families, once
                     c = emit(dict(cls=cls, base=base, variant=lab, corrupt=k1 + " + " + k2, expect=False, spec=enc(s2)))
                     if c:
                         yield c
+
+
+FAMILIES = ("non-string", "cyclic graph", "graph without", "negative weight", "missing weight", "non-conserving", "constraint coverage", "constraint naming",
+            "malformed constraint", "k = 0", "negative k", "non-integer k", "unsupported weight_type", "unsupported flow_attr_origin", "unsupported cover_type", "unknown node in")
+FAMILY_OF = {"k = 0": "k", "negative k": "k", "non-integer k": "k", "constraint naming": "constraints", "malformed constraint": "constraints",
+             "negative weight": "weights", "missing weight": "weights", "unsupported flow_attr_origin": "origin", "unsupported cover_type": "origin"}
+
+
+def family(kind):
+    for f in FAMILIES:
+        if kind.startswith(f):
+            return FAMILY_OF.get(f, f)
+    return kind
 
 
 # ----------------------------------------------------------------------------------------------------------------------
@@ -775,7 +788,10 @@ def check(case):
 
 
 def _generic(label):
-    """class-level part of a variant / corruption label (drop the inner model name of NumPathsOptimization variants)"""
+    """class-level part of a variant / corruption label (drop the inner model name of NumPathsOptimization variants; pairs of
+    corruptions are named by their two families only)"""
+    if " + " in label:
+        return "pair of corruptions [%s]" % " + ".join(sorted(family(k) for k in label.split(" + ")))
     for mt in DAG_FLOW_K:
         if label.startswith(mt + ", "):
             return "inner " + mt + ": " + label[len(mt) + 2:]
